@@ -93,6 +93,21 @@ def flt_cond(e, v, tol):
     return '(%s - %s <= %s) && (%s - %s <= %s)' % (E, V, T, V, E, T)
 
 
+def same_literal(tokstr, txt):
+    """is the cppcheck token the generated literal? (cppcheck respells `.5` as `0.5`, `3.` as `3.0` and drops
+    digit separators)"""
+    if tokstr == txt:
+        return True
+    a = txt if txt[:1] in "'LuU" and "'" in txt[:3] else txt.replace("'", '')
+    if tokstr == a:
+        return True
+    try:
+        return float(tokstr.rstrip('fFlL')) == float(a.rstrip('fFlL')) and tokstr[-1:].lower() == a[-1:].lower() or (
+            float(tokstr.rstrip('fFlL')) == float(a.rstrip('fFlL')) and tokstr[-1:].isdigit() and (a[-1:].isdigit() or a[-1:] == '.'))
+    except ValueError:
+        return False
+
+
 def collect(u, dump, pu, ti, ctx, lang, plat):
     """-> list of probes (line, node, text, kind, value, token)"""
     probes = []
@@ -113,7 +128,7 @@ def collect(u, dump, pu, ti, ctx, lang, plat):
             if exp is not None and tok.str != exp:
                 ctx.count('dropped', 'token at operator position is not the operator (tree differs)')
                 continue
-            if n.k == 'leaf' and tok.str != n.txt.replace("'", '') and tok.str != n.txt:
+            if n.k == 'leaf' and not same_literal(tok.str, n.txt):
                 # e.g. columns after a literal with digit separators are shifted in cppcheck's token list
                 ctx.count('dropped', 'token at the literal position is not the literal')
                 continue
@@ -483,6 +498,10 @@ def check_unit(ctx, d, name, u, lang, plat, use_gcc, use_patterns=True):
                 ctx.count('dropped', 'unparsable intvalue')
                 continue
             ok = (v == rf.value) or (rf.unsigned and rf.size >= 8 and (v - rf.value) % (1 << 64) == 0)
+            if not ok and n.k in ('cast', 'fcast', 'ncast') and n.ch and n.ch[0].k == 'leaf' and 'flt' in n.ch[0].flags \
+                    and n.ch[0].txt[-1:] in 'fF':
+                # the value of an f-suffixed literal is only compared with float precision (see level_note)
+                ok = abs(v - rf.value) <= abs(rf.value) * 1e-6
             iresults.append((p, rf, ok))
         else:
             if any(x.k in ('sze', 'szt') or (x.k == 'leaf' and ('var' in x.flags or 'raw' in x.flags or 'enumerator' in x.flags))
